@@ -250,6 +250,10 @@ def random_region(rnd):
             return K(PixCoord(np.array([rnd.uniform(-50, 50) for _ in range(n)]), np.array([rnd.uniform(-50, 50) for _ in range(n)])), **kw)
         return K(SkyCoord([rnd.uniform(10, 12) for _ in range(n)], [rnd.uniform(-3, 3) for _ in range(n)], unit='deg', frame=frame), **kw)
     if kind == 'Line':
+        if not pix and rnd.random() < 0.4:
+            # the end point given in another celestial frame than the start point
+            end = c()
+            return K(c(), end.transform_to('galactic' if end.frame.name != 'galactic' else 'icrs'), **kw)
         return K(c(), c(), **kw)
     if kind == 'Point':
         return K(c(), **kw)
@@ -261,10 +265,18 @@ def numbers(r):
     from regions import PixelRegion
     pix = isinstance(r, PixelRegion)
     out = []
+    first_frame = None
     for pname in r._params:
         v = getattr(r, pname)
         if pname == 'text':
             continue
+        if hasattr(v, 'spherical'):
+            # a region is written under ONE frame name, that of its first coordinate: a later coordinate given in another frame (the end
+            # point of a line) is the same point of the sky expressed in that frame
+            if first_frame is None:
+                first_frame = v.frame
+            elif v.frame.name != first_frame.name:
+                v = v.transform_to(first_frame)
         if hasattr(v, 'x') and pix and hasattr(v, 'isscalar'):
             for i, (a, b) in enumerate(zip(np.atleast_1d(v.x), np.atleast_1d(v.y))):
                 out += [(f'{pname}.x{i}', float(a), 1), (f'{pname}.y{i}', float(b), 1)]
